@@ -14,6 +14,8 @@ Tr == ndJsonDeserialize(IOEnv.TRACE_FILE)
 VARIABLES l, bad, lines, cur, ndim, nread
 vars == <<l, bad, lines, cur, ndim, nread>>
 
+BigFrame == 200
+
 Init == l = 1 /\ bad = "" /\ lines = << >> /\ cur = 0 /\ ndim = 0 /\ nread = 0
 
 Step ==
@@ -23,9 +25,10 @@ Step ==
         /\ l' = l + 1 /\ bad' = "" /\ lines' = rec.lines /\ cur' = 0 /\ ndim' = rec.ndim /\ nread' = 0
      ELSE IF rec.op = "frame" THEN
         IF cur >= Len(lines) THEN l' = l /\ bad' = "MoreFramesThanInFile" /\ UNCHANGED <<lines, cur, ndim, nread>>
-        ELSE LET r == Parse(lines, cur, ndim)
-                 w == WhySnapshot(rec.obs, r.snap)
-             IN  IF w = "" THEN l' = l + 1 /\ bad' = "" /\ cur' = r.next /\ nread' = nread + 1 /\ UNCHANGED <<lines, ndim>>
+        ELSE LET big == lines[cur + 4][1][1] > BigFrame      \* many atoms: the row-wise formulation (InvRowwiseAgrees)
+                 w == IF big THEN WhySnapshotRows(rec.obs, lines, cur, ndim)
+                             ELSE WhySnapshot(rec.obs, Parse(lines, cur, ndim).snap)
+             IN  IF w = "" THEN l' = l + 1 /\ bad' = "" /\ cur' = NextCur(lines, cur) /\ nread' = nread + 1 /\ UNCHANGED <<lines, ndim>>
                  ELSE l' = l /\ bad' = w /\ UNCHANGED <<lines, cur, ndim, nread>>
      ELSE
         IF rec.count = nread /\ cur = Len(lines) THEN l' = l + 1 /\ bad' = "" /\ UNCHANGED <<lines, cur, ndim, nread>>
